@@ -1,4 +1,5 @@
 import MpgsModel.Lemmas.SerialRound
+import MpgsModel.Lemmas.SerialAccept
 /-!
 # C13 — Serializer: decode(encode(v)) == v and encodings are self-delimiting
 
@@ -173,6 +174,54 @@ theorem C13_refuse (env : Env) :
   · intro xs hx
     simp [encode, hx]
 
+/-- Refusal at every depth ("never silently mis-encoded"): whenever the encoder returns bytes
+for a value of the default-codec grammar, EVERY node of the value is inside the domain
+(`encodable`: 64-bit ints, float32-range floats, encodable strings of at most 2**20 bytes, bytes
+of at most 2**20, collections of at most 2**14 elements, 16-bit type ids, enum values that are
+members).  Contrapositive: a value with one offending node anywhere inside is refused with an
+error. -/
+theorem C13_refuse_deep (env : Env) (v : Value) (bs : Bytes) (hw : wt false env.reg v = true)
+    (he : encode env v = .ok bs) : encodable env v = true :=
+  refuses env v bs hw he
+
+/-- ... and conversely the encoder accepts every value inside the domain: the round-trip
+theorem is not vacuous on any `encodable` value. -/
+theorem C13_accepts (env : Env) (v : Value) (h : encodable env v = true) :
+    ∃ bs, encode env v = .ok bs :=
+  accepts env v h
+
+/-- `HandshakeClientHelloMessage` (custom codec, connection.py:644-665): a hello built from a
+key in canonical DER form and any in-domain version value, once encoded (the encoder pads with
+`os.urandom` up to the fixed size; it refuses when key + version do not fit), decodes to the
+same message and the decoder stops exactly after the padding. -/
+theorem C13_clientHello_roundtrip (env : Env) (tid : Nat) (key : Bytes) (ver ver' : Value) (bs : Bytes)
+    (hreg : lookup env.reg tid = some .clientHello) (hb0 : isBase tid = false)
+    (hkey : env.parseKey key = .ok key) (hur : ∀ n, (env.urandom n).length = n)
+    (hw : wt false env.reg ver = true) (hc : canon ver = .ok ver')
+    (he : encode env (.clientHello tid key ver) = .ok bs) (rest : Bytes) :
+    decode env (bs ++ rest) = .ok (.clientHello tid key ver', rest) :=
+  clientHello_round env tid key ver ver' bs hreg hb0 hkey hur hw hc he rest
+
+/-- `HandshakeServerHelloMessage` (custom codec, connection.py:685-725): the server encodes
+`(key, salt, token)` as a payload, signs it with the root key and sends root key, payload and
+signature; a client that verifies with the key `vk` it trusts (the pre-shared one, or - keyword
+`None` - the root key sent along) gets back the same key, salt and token and the decoder stops
+exactly at the end.  Signing and verification are parameters; the only law used is that a
+signature made by `sign` verifies under `vk` (`hver`). -/
+theorem C13_serverHello_roundtrip (env : Env) (tid : Nat) (root0 root key vk : Bytes)
+    (salt token salt' token' : Value) (bs : Bytes)
+    (hreg : lookup env.reg tid = some .serverHello) (hb0 : isBase tid = false)
+    (hroot : env.rootKey = some root)
+    (hpr : env.parseKey root = .ok root) (hpk : env.parseKey key = .ok key)
+    (hvk : (env.serverKey = some none ∧ vk = root) ∨ env.serverKey = some (some vk))
+    (hver : ∀ p s, env.sign p = .ok s → env.verify vk s p = .ok ())
+    (hws : wt false env.reg salt = true) (hcs : canon salt = .ok salt')
+    (hwt : wt false env.reg token = true) (hct : canon token = .ok token')
+    (he : encode env (.serverHello tid root0 key salt token) = .ok bs) (rest : Bytes) :
+    decode env (bs ++ rest) = .ok (.serverHello tid root key salt' token', rest) :=
+  serverHello_round env tid root0 root key vk salt token salt' token' bs hreg hb0 hroot hpr hpk hvk hver
+    hws hcs hwt hct he rest
+
 /-! ### non-vacuity: concrete values that meet the hypotheses -/
 
 /-- a registry with a two-field class 200 and an enum 201 with members 1, "a" -/
@@ -193,6 +242,14 @@ example : InDomain exEnv exValue := ⟨by decide +kernel, by decide +kernel⟩
 set_option maxRecDepth 8192 in
 example : canon exValue = .ok exValue := by rfl
 example : (encode exEnv exValue).isOk = true := by decide +kernel
+example : encodable exEnv exValue = true := by decide +kernel
+/-- an offending node deep inside: 2**63 inside a dict inside a list is not encodable -/
+example : encodable exEnv (.seq [.map [(.str [97], .int 9223372036854775808)]]) = false := by decide +kernel
+/-- a client hello: registry with the class under id 130, version 1, a 91-byte key -/
+example : (match encode { exEnv with reg := [(130, .clientHello)] }
+      (.clientHello 130 (List.replicate 91 7) (.int 1)) with
+    | .ok bs => bs.length == 1412
+    | .error _ => false) = true := by decide +kernel
 /-- the instance of the round trip for this value, any trailing bytes -/
 example (bs : Bytes) (h : encode exEnv exValue = .ok bs) (rest : Bytes) :
     decode exEnv (bs ++ rest) = .ok (exValue, rest) :=
